@@ -1908,6 +1908,9 @@ def oracle_near(case):
             # accepted: the answer is that of the exact quadruple up to what the excess explains
             exact = np.asarray(fn(Q))
             scale = float(np.abs(exact).max()) / amax
+            if fn is not miller.vector4to3 and fn is not miller.plane4to3:
+                # Cartesian output: the excess enters through the in-plane cell vectors, whatever direction the exact answer has
+                scale = max(scale, float(max(case['hexcell'])))
             require(float(np.abs(out - exact).max()) <= 4 * abs(d) * max(scale, 1.0) + 64 * EPS * float(np.abs(exact).max()),
                     lambda: '%s: quadruple %r (sum off by %.3g) -> %r, exact quadruple -> %r' % (fn.__name__, B.tolist(), d, out.tolist(), exact.tolist()))
             labels.add('accepted')
